@@ -137,7 +137,10 @@ def match_known(known, pid, f):
 
 
 def run_v(engine_v, repo, prog, pid):
-    r = engine_v.run_program(repo, prog["layout"], BUILD, rlimit=prog.get("rlimit", 60), wall=prog.get("wall", 300))
+    # one directory per property and repo path: concurrent checks never share generated files
+    import hashlib
+    bdir = os.path.join(BUILD, "v-%s-%s" % (pid, hashlib.sha1(os.path.abspath(repo).encode()).hexdigest()[:8]))
+    r = engine_v.run_program(repo, prog["layout"], bdir, rlimit=prog.get("rlimit", 60), wall=prog.get("wall", 300))
     units = set(prog.get("units", []))
     lemmas = set(prog.get("lemmas", []))
     o = dict(engine="V", name=prog["layout"], bounded=False, failures=[], undecided=[], detail=r)
